@@ -13,6 +13,7 @@
 //!        c<k>-<k2> declares that the closure of the pipe reading stream k owns a closer of stream k2 (released closure => stream k2 ends)
 //!        p<q> the caller panics while it owns this program's handle of object q (the object is dropped during the unwinding; real threads only)
 //!        q<q>[body] sync through the program's last handle of object q, owned by the caller during the call (real threads, with a panicking job queued before)
+//!        w<n> wait (no scheduling call) until at most n accepted operations are outstanding
 //!        k<q> a job scheduled on object q drops the caller's output stream
 //!        j<k>n<n> produce n GATED items (their processing waits until the consumer has received every earlier item)
 //!        g<k>n<n> produce n SLOW items (their processing yields co-operatively once, holding the object across the yield)   G<k>n<n> produce n items on stream k   H<k> end stream k   N<n> consume n outputs (0 = until the end)   K drop the output stream
@@ -56,6 +57,8 @@ pub enum Op {
     Pipe(usize, usize, usize),
     Produce(usize, usize),
     ProduceSlow(usize, usize),
+    /// `w<n>`: wait, without any scheduling call, until at most n accepted operations are still outstanding
+    WaitPending(usize),
     /// `q<q>[body]`: sync through the program's LAST handle of object q, owned by the caller during the call: if the call unwinds
     /// (a job queued earlier panics while this caller drains the queue) the object is dropped by the unwinding thread
     SyncOwned(usize, Vec<Prim>),
@@ -143,6 +146,7 @@ pub fn fmt_op(o: &Op) -> String {
         Op::CloseStream(k) => format!("H{}", k),
         Op::Consume(n) => format!("N{}", n),
         Op::DropStream => "K".into(),
+        Op::WaitPending(n) => format!("w{}", n),
         Op::PanicDrop(q) => format!("p{}", q),
         Op::ChainClose(k, k2) => format!("c{}-{}", k, k2),
         Op::DropStreamInJob(q) => format!("k{}", q),
@@ -254,6 +258,7 @@ fn parse_op(cs: &[char], i: &mut usize) -> Result<Op, String> {
         'H' => Op::CloseStream(parse_num(cs, i)?),
         'N' => Op::Consume(parse_num(cs, i)?),
         'K' => Op::DropStream,
+        'w' => Op::WaitPending(parse_num(cs, i)?),
         'p' => Op::PanicDrop(parse_num(cs, i)?),
         'c' => { let k = parse_num(cs, i)?; expect_ch(cs, i, '-')?; Op::ChainClose(k, parse_num(cs, i)?) }
         'k' => Op::DropStreamInJob(parse_num(cs, i)?),
